@@ -306,6 +306,27 @@ func cmdCheck(args []string) {
 	for _, l := range lines {
 		fmt.Println(l)
 	}
+	// C09: frame obligations over the runtime call graph
+	var frame *frameResult
+	if *prop == "C09" {
+		frame = eng.FrameScan()
+		for _, v := range frame.Violations {
+			if k := matchKnown(kfs, *prop, "frame:"+v.Pos); k != nil {
+				fmt.Printf("KNOWN-FINDING: property=%s %s [frame:%s]\n", *prop, k.What, v.Pos)
+				pp.Known = append(pp.Known, "frame:"+v.String())
+				continue
+			}
+			pp.Violations++
+			path := filepath.Join(*verif, "replays", fmt.Sprintf("%s_frame_%d.json", *prop, pp.Violations))
+			os.MkdirAll(filepath.Dir(path), 0o755)
+			rf := map[string]any{"property": *prop, "obligation": "frame: " + v.String(), "kind": "frame obligation (static)",
+				"solver_output": "the written location is reachable from a shared Parser / Definition / package-level value and was not allocated in this function",
+				"replayed_on_real_code": false, "how_to_replay": "cd /verif && ./check C09"}
+			rb, _ := json.MarshalIndent(rf, "", "  ")
+			os.WriteFile(path, rb, 0o644)
+			fmt.Printf("VIOLATION property=%s replay=%s obligation=frame:%s no-failing-input-found\n", *prop, path, v.Pos)
+		}
+	}
 	// bounded stand-ins for the parts no contract can reach (labelled bounded, never counted as proved)
 	bounded, problems := runBounded(*repo, *verif, *prop, *tier)
 	for _, pr := range problems {
@@ -382,6 +403,23 @@ func cmdCheck(args []string) {
 	if len(bounded) > 0 {
 		cov["bounded_standins"] = bounded
 		cov["bounded_note"] = "bounded stand-ins are exhaustive within their stated bound and are NOT counted as proved; they run the real code of /repo through in-package tests injected with go test -overlay"
+	}
+	if frame != nil {
+		cov["frame_functions_scanned"] = frame.Functions
+		cov["frame_write_sites"] = len(frame.Sites)
+		cov["frame_write_sites_into_shared_state"] = len(frame.Violations)
+		var fs []string
+		for i, st := range frame.Sites {
+			if i%9 == 0 && len(fs) < 12 {
+				fs = append(fs, st.String()+" => "+st.Verdict)
+			}
+		}
+		cov["frame_samples"] = fs
+		cov["frame_roots"] = frame.Roots
+		bEvals += len(frame.Sites)
+		bDistinct += len(frame.Sites)
+		bSamples = append(bSamples, fs...)
+		bRules = append(bRules, "frame scan: every store / map update / append / copy / delete in the functions reachable from Parse*, Lex*, String, Next, applyAction and ebnf.Parse*; discharged when the target is allocated in the function or is per-call state")
 	}
 	if *level != "proof" {
 		cov["explanation"] = "contract obligations discharged by SMT for the functions listed (if any) plus bounded stand-ins; see level_note in MANIFEST.json"
